@@ -306,6 +306,30 @@ pub fn s5_bloom(d: &mut Driver, rep: &mut Report, rng: &mut Rng, n: usize, thoro
             }
             expect(d, rep, "S5 bloom", &format!("bloom_match {} {}", hex(&k), hex(&f)), &format!("{}", m));
         }
+        // the probe-count byte at and around its maximum (30): 29, 30, 31, 32, 255
+        if !f.is_empty() {
+            for kb in [29u8, 30, 31, 32, 255].iter() {
+                let mut g = f.clone();
+                let p = g.len() - 1;
+                g[p] = *kb;
+                for k in keys.iter().take(2).cloned().chain(std::iter::once(rng.any_bytes(3))) {
+                    let m = guarded(|| rp.key_may_match(&k, &g)).map(|b| format!("{}", b)).unwrap_or("panic".into());
+                    rep.count("s5_kbyte_boundary");
+                    expect(d, rep, "S5 bloom", &format!("bloom_match {} {}", hex(&k), hex(&g)), &m);
+                }
+            }
+        }
+        // the crate's NoFilterPolicy called directly (the filter-block reader never calls it: its filters are empty)
+        {
+            let np = sstable::filter::NoFilterPolicy::new();
+            let k = rng.any_bytes(3);
+            let (flat2, offs2) = flatten(&keys);
+            let nf = np.create_filter(&flat2, &offs2);
+            rep.count("s5_nofilter_direct");
+            if !nf.is_empty() || !np.key_may_match(&k, &nf) || !np.key_may_match(&k, &f) {
+                rep.judge_fail(J::obj(vec![("stream", J::s("S5 bloom")), ("what", J::s("NoFilterPolicy creates a non-empty filter or rejects a key")), ("key", J::s(&hex(&k)))]));
+            }
+        }
         // damaged filters (k byte, length)
         let mut g = f.clone();
         if !g.is_empty() {
@@ -482,6 +506,32 @@ pub fn s6_filterblock(d: &mut Driver, rep: &mut Report, rng: &mut Rng, n: usize)
                     bad[p] ^= 1 << rng.below(8)
                 }
             }
+            // boundary values of the trailer: base_lg2 in {0, 11, 63, 64, 65, 255}, offsets_offset at and around
+            // its maximum (len-5)
+            if i % 4 == 0 && blk.len() >= 6 {
+                for (which, val) in [(0usize, 0usize), (0, 11), (0, 63), (0, 64), (0, 65), (0, 255), (1, blk.len() - 5), (1, blk.len() - 4), (1, blk.len() - 6), (1, 0)].iter() {
+                    let mut b2 = blk.clone();
+                    let n = b2.len();
+                    if *which == 0 {
+                        b2[n - 1] = *val as u8;
+                    } else {
+                        b2[n - 5..n - 1].copy_from_slice(&(*val as u32).to_le_bytes());
+                    }
+                    let wf2 = FilterBlockReader::is_well_formed(&b2);
+                    rep.count("s6_boundary_trailer");
+                    expect(d, rep, "S6 filterblock", &format!("fb_wf {}", hex(&b2)), &format!("{}", wf2));
+                    if wf2 {
+                        for o2 in [0usize, 2047, 2048, 1 << 20, usize::MAX >> 1, usize::MAX].iter() {
+                            let k = gen_key(rng, None, 3);
+                            let m = fb_match_impl(&rpol, &b2, *o2, &k);
+                            if m == "panic" {
+                                rep.judge_fail(J::obj(vec![("stream", J::s("S6 filterblock")), ("what", J::s("reader panics on a filter block that passed validation")), ("block", J::s(&hex(&b2))), ("offset", J::N(*o2 as i64)), ("key", J::s(&hex(&k)))]));
+                            }
+                            expect(d, rep, "S6 filterblock", &format!("fb_match {} {} {} {}", rpol.name(), hex(&b2), o2, hex(&k)), &m);
+                        }
+                    }
+                }
+            }
             let wf = FilterBlockReader::is_well_formed(&bad);
             rep.count(if wf { "s6_malformed_wf" } else { "s6_malformed_rejected" });
             expect(d, rep, "S6 filterblock", &format!("fb_wf {}", hex(&bad)), &format!("{}", wf));
@@ -627,7 +677,7 @@ pub fn block_ops_impl(cfg: &WCfg, blk: &[u8], ops: &[String]) -> String {
                     "-".into()
                 }
                 "v" => format!("{}", it.valid()),
-                "c" => show_kv(&current_key_val(&it)),
+                "c" => { let a = dirty_current(&it); let b = current_key_val(&it); if a == b { show_kv(&a) } else { format!("current-with-recycled-buffers:{}/helper:{}", show_kv(&a), show_kv(&b)) } }
                 "k" => it.current_key().map(|k| hex(k)).unwrap_or("none".into()),
                 _ => "bad".into(),
             }
